@@ -124,7 +124,9 @@ Lemma enforced_subnet_refused : forall m s b, mem_ok m -> wf_snet s -> snet_key 
   model_has m (tid (RSubnet s)) -> contains s b = true -> ip_refused m b = true.
 Proof.
   intros m s b Hok Hs Hk Hb H Hc. apply refused_iff; [assumption|assumption|].
-  exists (tid (RSubnet s)). split; [exact H|]. cbn [tid]. rewrite <- contains_matches_key by assumption. exact Hc.
+  exists (tid (RSubnet s)). split; [exact H|]. cbn [tid]. unfold ckey.
+  rewrite id_canon by (apply skey_of_wf; assumption). rewrite rid_matches_den.
+  rewrite <- contains_matches_key by assumption. exact Hc.
 Qed.
 
 (* ---- persistence: only a write on the same rule changes whether it is enforced ----- *)
